@@ -63,17 +63,24 @@ Generate ==
                         ELSE RunOnce(fs, beh)[p]]
     /\ UNCHANGED <<fs0, beh, opts, verdict>>
 
-\* the command starts behaving differently (one change; a file it no longer produces gets Absent)
+\* the command starts behaving differently: one thing changes with respect to generation time (a file it no
+\* longer produces gets Absent), or it goes back to what it did then.  Verdicts of earlier runs say nothing
+\* about the new behaviour.
 Targets == Outs \cup {t \in Streams : IF t = "STDOUT" THEN opts.stdout ELSE opts.stderr} \cup {"exit"}
-Perturb(t, c) ==
-    /\ phase = "generated"
-    /\ beh = gen
-    /\ beh' = IF t \in Outs THEN [beh EXCEPT !.files[t] = c]
-              ELSE IF t = "STDOUT" THEN [beh EXCEPT !.STDOUT = c]
-              ELSE IF t = "STDERR" THEN [beh EXCEPT !.STDERR = c]
-              ELSE [beh EXCEPT !.exit = IF @ = 0 THEN 3 ELSE 0]
-    /\ beh' # beh
-    /\ UNCHANGED <<fs, fs0, gen, opts, phase, verdict>>
+Changed(t, c) == IF t \in Outs THEN [gen EXCEPT !.files[t] = c]
+                 ELSE IF t = "STDOUT" THEN [gen EXCEPT !.STDOUT = c]
+                 ELSE IF t = "STDERR" THEN [gen EXCEPT !.STDERR = c]
+                 ELSE [gen EXCEPT !.exit = IF @ = 0 THEN 3 ELSE 0]
+ValueAt(b, t) == IF t \in Outs THEN b.files[t] ELSE IF t = "STDOUT" THEN b.STDOUT ELSE IF t = "STDERR" THEN b.STDERR ELSE b.exit
+PerturbTo(b) ==
+    /\ phase \in {"generated", "tested"}
+    /\ b # beh
+    /\ b = gen \/ \E t \in Targets : b = Changed(t, ValueAt(b, t))
+    /\ beh' = b
+    /\ verdict' = <<>>
+    /\ UNCHANGED <<fs, fs0, gen, opts, phase>>
+Perturb(t, c) == PerturbTo(Changed(t, c))
+Restore == PerturbTo(gen)
 
 \* the generated test: remove the previous outputs, run the command, one test per checked thing
 RunGeneratedTest ==
@@ -90,7 +97,7 @@ RunGeneratedTest ==
     /\ phase' = "tested"
     /\ UNCHANGED <<fs0, beh, gen, opts>>
 
-GNext == Generate \/ RunGeneratedTest
+GNext == Generate \/ RunGeneratedTest \/ Restore
          \/ \E t \in Targets, c \in Contents \cup {Absent} : (t \in Outs \/ c # Absent) /\ Perturb(t, c)
 GSpec == GInit /\ [][GNext]_gvars
 
